@@ -198,7 +198,20 @@ func Main(prop string) {
 	r := vh.NewRng(o.Seed*2 + map[string]uint64{"C04": 0, "C08": 1}[prop])
 
 	var cases []Case
-	if o.Replay != "" {
+	searching := o.Search != ""
+	if searching {
+		seeds := readSeeds(o.Search)
+		for i := 0; i < o.N; i++ {
+			cr := r.Fork()
+			if len(seeds) == 0 {
+				c := Gen(cr, prop)
+				c.Origin = "search-fresh"
+				cases = append(cases, c)
+			} else {
+				cases = append(cases, Variant(cr, seeds[cr.Intn(len(seeds))]))
+			}
+		}
+	} else if o.Replay != "" {
 		var c Case
 		if vh.ReadReplayCase(o.Replay, &c) {
 			c.Origin = "replay"
@@ -255,6 +268,9 @@ func Main(prop string) {
 		run.Count(key, res.Computes > len(c.RRs) && inval > 0)
 		run.Hist("shape:" + c.shape())
 		run.Hist(fmt.Sprintf("rules:%d", len(c.Rules)))
+		if c.sharedSlots() > 0 {
+			run.Hist("resource-shared-between-rerunners")
+		}
 		run.Hist(fmt.Sprintf("perturb:%d", c.Perturb))
 		switch {
 		case res.NEvents < 100:
@@ -300,6 +316,12 @@ func Main(prop string) {
 		totalEvents += res.NEvents
 		if idx < 3 {
 			run.Sample(map[string]interface{}{"case": c, "events": res.NEvents, "computes": res.Computes, "kinds": res.Kinds})
+		}
+		if searching {
+			if !res.Quiet {
+				livelocks++
+			}
+			continue // oracle only
 		}
 		if !res.Quiet {
 			livelocks++
